@@ -46,7 +46,12 @@ CLAIMS = {
                      "lines, configuration, unread input, results) for the whole driver (feed, BOM, script injection, end). "
                      "And at the level of the executable driver (TokIR/ChunkExec.v): two chunkings through drive_flat - feed loops with "
                      "script injection, then end() - reach the same final machine and end() result whenever every feed call ended "
-                     "regularly, byte order mark handling included (except a first chunk that is U+FEFF alone). "
+                     "regularly, byte order mark handling included (except a first chunk that is U+FEFF alone). The regularity "
+                     "hypothesis is discharged for the reference driver (TokIR/Termination.v + NoPanic.v): from a fresh tokenizer in a "
+                     "well-kinded state with a well-kinded sink and fuel above the explicit bound (T+1)(2T+10) on the total input "
+                     "length, every feed call ends regularly unless the driver model's limit of 50 script pauses per chunk is hit "
+                     "(C03_driver_chunking_independent_total: only that 96-hypothesis and the fuel bound remain; "
+                     "C03_driver_chunking_independent_no_pauses: nothing but the fuel bound for sinks that never pause). "
                      "Also proved (TokIR/BulkSim.v, generic in the queue and the table; Inst/InstBulk.v decides its two table "
                      "conditions on the regenerated html table): for exact_errors = false - the tokenizer's default mode - the "
                      "chunked-queue interpreter with bulk reads (runs up to the end of the first buffer, the SIMD scan of the "
@@ -87,10 +92,18 @@ CLAIMS = {
                      "C03_reference_driver_is_regular_with_enough_fuel) - under decidable conditions re-decided on every run "
                      "(C04_html_arms_make_progress: every arm that may end without consuming goes to a state of smaller rank, rank "
                      "computed from the table; EOF arms neither read nor emit tags and stop within 4 arms) and an invariant true of "
-                     "every fresh tokenizer. The bound is quadratic because the entity table is abstract. Not covered by the "
-                     "termination proof: the xml table (its eat/discard differ), the default mode with bulk reads over the chunked "
-                     "queue (tied to the reference run by BulkSim only for regular runs), the harness's limit of 50 script pauses per "
-                     "chunk (SPanic 96) and the genuine panic values. Tree builders, stack depth and "
+                     "every fresh tokenizer. The bound is quadratic because the entity table is abstract. NO PANIC SITE is reached "
+                     "(TokIR/NoPanic.v, Inst/InstNoPanic.v, C04_html_tokenizer_total): from a fresh tokenizer in a well-kinded state, "
+                     "with a sink whose raw-text switches are well-kinded, for every input, chunking, injected text and sink script, "
+                     "with fuel above the bound, the driver's log is answer-of-end() :: feed entries where every feed entry is done / "
+                     "script pause / encoding indicator or the driver MODEL's own limit of 50 pauses per chunk (96), and end() answers "
+                     "done or site 4 (assert!(matches!(run, Done)) in Tokenizer::end: in the model it needs a tag completed from put-back "
+                     "character-reference input with a pausing answer; with a sink that never answers Script/EncodingIndicator it is "
+                     "excluded and the whole log is 'done': C04_html_tokenizer_total_no_pauses); sites 99 (fall-through), 1 "
+                     "(process_char_ref), 3, 5 and 98/97 never occur - through the invariant 'the state is well-kinded and "
+                     "process_char_ref has an arm while a reference is pending' and the decidable conditions state_ok / noeofb on the "
+                     "regenerated table. Not covered: the xml table (its eat/discard differ), the default mode with bulk reads over "
+                     "the chunked queue (tied to the reference run by BulkSim only for regular runs). Tree builders, stack depth and "
                      "time are covered by the harness only (panic/abort/hang watch, queue-empty and single-EOF oracles, deep nesting).",
                 note=TOK_NOTE, tech="reflective Coq checks (EOF rank, char-ref states) + Coq termination proof of the tokenizer interpreter with explicit fuel bound (potential function, rank check on the regenerated table) + totality oracle incl. pathological inputs"),
     "C08": dict(cat="proof", ref="DESIGN.md section 5 C08",
